@@ -80,6 +80,12 @@ def run(ctx):
     for b in [x for x in behs if len(x["ops"]) == 1 and x["ops"][0].get("how") in ("type", "type21", "type20")]:
         for dd in DIRS:
             scheds.append({"ops": b["ops"], "delivered": b["delivered"], "err": b["err"], "suite": 0xe053, "dir": dd, "plan": "alertlike"})
+    # the same single operations arriving after the receiver has half-closed its own direction (CloseWrite: its close_notify is
+    # out; what it receives is protected exactly as before)
+    singles = [b for b in behs if len(b["ops"]) == 1]
+    for b in (singles if thorough else rnd.sample(singles, min(len(singles), 40))):
+        s, dd = rnd.choice(combos)
+        scheds.append({"ops": b["ops"], "delivered": b["delivered"], "err": b["err"], "suite": s, "dir": dd, "plan": "small", "rcv_closewrite": True})
     # 3. the abstract Flip instantiated at every bit (thorough) / one bit of every byte (quick) of record 2
     nbits = {}
     for (s, dd) in (combos if thorough else [combos[ctx.seed % 4], combos[(ctx.seed + 1) % 4]]):
@@ -127,7 +133,7 @@ def run(ctx):
         if not s["err"] and o["err_class"] != "eof":
             probs.append("untouched stream ended with an error: %s" % o["err_text"])
         if probs:
-            ctx.violation("suite %04x %s plan=%s ops=%s: %s" % (s["suite"], s["dir"], s["plan"], json.dumps(s["ops"]), "; ".join(probs)),
+            ctx.violation("suite %04x %s plan=%s%s ops=%s: %s" % (s["suite"], s["dir"], s["plan"], " (receiver half-closed)" if s.get("rcv_closewrite") else "", json.dumps(s["ops"]), "; ".join(probs)),
                           {"schedule": s, "observed": o})
         else:
             ok += 1
